@@ -96,7 +96,7 @@ CHECKS["C31"] = dict(
     judge=dict(spec="TrafficTrace.tla", cfg="TrafficTrace.cfg"),
     corrupt=corrupt_field("credit", "st", _c31_corrupt),
     nontrivial=lambda s: any(o["op"] == "pay" for o in s["ops"]) and any(o["op"] == "credit" for o in s["ops"]),
-    rule="TLC-generated sequential histories over 2 peers, amounts {1,2}, threshold 2, chain balance 5 (edges: one shortest history "
+    rule="TLC-generated sequential histories over 2 peers, amounts {1,2}, threshold 2, chain balance 9 (edges: one shortest history "
          "per (model state, operation); all-depthN: every history of length N over the 14 operations; walks: -simulate), each run "
          "on a node whose chain does / does not list the peers at start-up; distinct = distinct (start-up, operation sequence); "
          "non-trivial = contains a credit and a pay",
@@ -187,7 +187,7 @@ _ACCT = dict(spec="AccountingGen.tla")
 
 CHECKS["C32"] = dict(
     modules=["settlement"], level="model_checking", driver="acctdrv", race=True,
-    driver_env=dict(GORACE="exitcode=0"),
+    driver_env=dict(GORACE="exitcode=0"), driver_timeout=2400,
     design_ref="5 (C32), 6 (race clause)",
     technique="TLA+ lock-granularity model of accounting checked by TLC; TLC-generated interleavings forced on the real "
               "accounting.Accounting through a blocking settlement stub; recorded trace judged by the TLA+ trace spec; the "
@@ -205,9 +205,9 @@ CHECKS["C32"] = dict(
     gen=dict(
         quick=[dict(_ACCT, mode="edges", cfg="AccountingGenEdges.cfg", depth=10, max=700, name="edges-2calls", env=dict(VERIF_MAXOPS=2)),
                dict(_ACCT, mode="sim", cfg="AccountingGenSim.cfg", depth=16, num=500, max=500, name="walks-6calls", env=dict(VERIF_MAXOPS=6))],
-        thorough=[dict(_ACCT, mode="edges", cfg="AccountingGenEdges.cfg", depth=12, max=6000, name="edges-3calls", env=dict(VERIF_MAXOPS=3),
+        thorough=[dict(_ACCT, mode="edges", cfg="AccountingGenEdges.cfg", depth=12, max=2000, name="edges-3calls", env=dict(VERIF_MAXOPS=3),
                        timeout=900),
-                  dict(_ACCT, mode="sim", cfg="AccountingGenSim.cfg", depth=16, num=5000, max=5000, name="walks-6calls",
+                  dict(_ACCT, mode="sim", cfg="AccountingGenSim.cfg", depth=16, num=2500, max=2000, name="walks-6calls",
                        env=dict(VERIF_MAXOPS=6))]),
     post_gen=_c32_post,
     judge=dict(spec="AccountingTrace.tla", cfg="AccountingTrace.cfg"),
